@@ -53,6 +53,10 @@ def sorStep (o : Ops α β γ) (ω : α) (A : Csr β) (pin : Array γ) (out : Ar
 def sorSweep (o : Ops α β γ) (ω : α) (A : Csr β) (x : Array γ) : Array γ :=
   (List.range A.rows).foldl (sorStep o ω A x) x
 
+/-- in-place call `apply(v, v)`: `pin` aliases `pout` -/
+def sorSweepIn (o : Ops α β γ) (ω : α) (A : Csr β) (x : Array γ) : Array γ :=
+  (List.range A.rows).foldl (fun out i => sorStep o ω A out out i) x
+
 /-- the blocked unit filter zeroes whole blocks -/
 def filterCor (o : Ops α β γ) (fidx : List Nat) (v : Array γ) : Array γ :=
   fidx.foldl (fun v i => v.setIfInBounds i o.zero) v
@@ -72,6 +76,9 @@ def ssorBwdStep (o : Ops α β γ) (ω : α) (A : Csr β) (out : Array γ) (i : 
 
 def ssorFwd (o : Ops α β γ) (ω : α) (A : Csr β) (x : Array γ) : Array γ :=
   (List.range A.rows).foldl (ssorFwdStep o ω A x) x
+
+def ssorFwdIn (o : Ops α β γ) (ω : α) (A : Csr β) (x : Array γ) : Array γ :=
+  (List.range A.rows).foldl (fun out i => ssorFwdStep o ω A out out i) x
 
 def ssorBwd (o : Ops α β γ) (ω : α) (A : Csr β) (y : Array γ) : Array γ :=
   (List.range A.rows).reverse.foldl (ssorBwdStep o ω A) y
